@@ -91,6 +91,34 @@ Theorem C19_from_buffer_fixed_array : forall len isz buflen,
 Proof. exact from_buffer_fixed_array. Qed.
 Print Assumptions C19_from_buffer_fixed_array.
 
+(* cdata on the right-hand side of a buffer slice assignment (and as memmove operand) goes through
+   _fetch_as_buffer, whose computation of view->len is regenerated from the source into C19/Gen.v.
+   Obligation (decidable check lenexpr_ok, proved sound for every source): an ARRAY cdata is presented
+   with its real byte length get_array_length * itemsize whether its type is a fixed T[n] or an open
+   T[] (cdata slices, ffi.new('T[]', n), ffi.from_buffer('T[]', obj)); a POINTER with -1 = unknown. *)
+Theorem C19_fetch_len_generated_ok : lenexpr_ok gen_fetch_len = true.
+Proof. exact gen_fetch_len_ok. Qed.
+Print Assumptions C19_fetch_len_generated_ok.
+
+Theorem C19_fetch_len_is_real_length : forall e sd, lenexpr_ok e = true -> wf_sd sd ->
+  src_len e sd = if sd_is_array sd then sd_length sd * sd_isz sd else -1.
+Proof. exact fetch_len_is_real_length. Qed.
+Print Assumptions C19_fetch_len_is_real_length.
+
+(* so in the history theorem an array cdata source is the buffer VBuf of its real contents (length
+   checked against the slice) and a pointer source is VPtrSrc (slice length trusted) *)
+Theorem C19_cdata_source : forall e sd bs, lenexpr_ok e = true -> wf_sd sd ->
+  (sd_is_array sd = true -> zlen bs = sd_length sd * sd_isz sd) ->
+  cdata_source e sd bs = Some (if sd_is_array sd then VBuf bs else VPtrSrc bs).
+Proof. exact cdata_source_spec. Qed.
+Print Assumptions C19_cdata_source.
+
+Theorem C19_ct_size_length_refuted :
+  lenexpr_ok (LIf SIsArray LCtSize LUnknown) = false /\
+  src_len (LIf SIsArray LCtSize LUnknown) (mk_sd true (-1) 6 1) = -1.
+Proof. exact ct_size_length_refuted. Qed.
+Print Assumptions C19_ct_size_length_refuted.
+
 (* ffi.memmove(dst, src, n): dest and src are offsets into ONE flat memory (operands in different
    objects are the non-overlapping special case); which kinds of operands (cdata pointers, array
    views, memoryviews, bytes) reach the same memmove call is covered by the harness.  Any overlap: the n destination bytes become the OLD n
